@@ -27,6 +27,7 @@ import M4riProofs.Top
 import M4riProofs.GenTieSolve
 import M4riProofs.GenTiePleFinal
 import M4riProofs.GenTieGlue
+import M4riProofs.GenTieClose4
 namespace M4ri.Props.C06
 open M4ri M4ri.BMat
 
@@ -102,5 +103,11 @@ theorem solve_left_end_to_end (L1 L2 L3 : Nat) {A B : BMat} (hA : A.WF) (hB : B.
 #check @M4ri.GenTieGlue.solveLeftTop_eq
 #check @M4ri.GenTieGlue.solveLeftTop_pluqFromPle
 #check @M4ri.GenTieGlue.pluqFromPle_eq
+
+
+/-! ### THE WHOLE `_mzd_ple` on the C text (GenTieClose4.lean): `pleFull` is the complete generated function (zero-row test through the translated
+    `mzd_first_zero_row`, permutation initialisation, regime test with the cut-off numeral = 524288, base case through a copy, recursive
+    branch); `cPleFull n` = it bound to itself `n` levels deep: for every depth it returns what `pleRec n` returns, a valid PLE factorisation -/
+#check @M4ri.GenTieClose4.cPleFull_spec
 
 end M4ri.Props.C06
